@@ -631,7 +631,7 @@ def value_type_check_is_length_exact(facts, rep):
                    "the byte-array verdict is an equality between bytes.len() and the size computed from the type" if good else
                    "the byte-array verdict is not an equality on bytes.len(): values of another size are accepted", b.loc(bb))
     rep.analysed["check_type_acceptance_sites"] = n
-    rep.ob("C12.T", "check_type|acceptance-sites-found", n >= 1, "%d acceptance site(s) analysed" % n, b.loc())
+    rep.anchor("C12.T", "check_type|acceptance sites (Ok(true) / Ok(len == size))", n >= 1)
 
 
 def rebuild_order_is_valid(facts, rep):
